@@ -24,6 +24,7 @@ type SpecEnv struct {
 	homePkg  *types.Package
 	inOld    bool
 	depth    int
+	nargs    int // number of actual arguments at a call site (for vararg())
 }
 
 func (fc *FnCtx) newSpecEnv(cur, old *State, scopePos token.Pos) *SpecEnv {
@@ -292,7 +293,26 @@ func (env *SpecEnv) evalField(e *SExpr) Val {
 	// ghost field?
 	if gt, ok := env.ghostField(owner, e.Name); ok {
 		if !isPtr {
-			env.fail(e, "ghost field on struct value")
+			// ghost field of a local struct variable: keyed by the variable's (abstract) address
+			addr := ""
+			if a0 := e.Args[0]; a0.Kind == SIdent && env.goLocals && env.scopePos.IsValid() {
+				if sc := fc.pkg.Types.Scope().Innermost(env.scopePos); sc != nil {
+					if _, obj := sc.LookupParent(a0.Name, env.scopePos); obj != nil {
+						if v, ok := obj.(*types.Var); ok {
+							addr = sym(fmt.Sprintf("addr$%s$%d", v.Name(), v.Pos()))
+							fc.declareOnce(addr, fmt.Sprintf("(declare-fun %s () Int)", addr))
+							fc.declareOnce(addr+"nz", fmt.Sprintf("(assert (not (= %s 0)))", addr))
+							fc.ghostDefaults(env.st(), addr, v.Type())
+						}
+					}
+				}
+			}
+			if addr == "" {
+				env.fail(e, "ghost field on struct value")
+			}
+			key := fc.fieldKey(owner, e.Name)
+			arr := fc.heapGet(env.st(), key, fmt.Sprintf("(Array Int %s)", fc.sortOf(gt)))
+			return Val{T: app("select", arr, addr), Ty: gt}
 		}
 		key := fc.fieldKey(owner, e.Name)
 		arr := fc.heapGet(env.st(), key, fmt.Sprintf("(Array Int %s)", fc.sortOf(gt)))
@@ -496,6 +516,13 @@ func (env *SpecEnv) evalCall(e *SExpr) Val {
 		key := fc.fieldKey(ot, a.Name)
 		arr := fc.heapGet(env.st(), key, fmt.Sprintf("(Array Int %s)", fc.sortOf(ft)))
 		return Val{T: arr, Ty: types.NewArray(ft, 0)}
+	case "vararg": // vararg(i): the i-th actual argument of the call as an interface value (nil when absent)
+		k, _ := strconv.Atoi(e.Args[0].Name)
+		fc.ifaceSort()
+		if v, ok := env.bound[fmt.Sprintf("$%d", k)]; ok {
+			return fc.assignConvSpec(v, types.NewInterfaceType(nil, nil))
+		}
+		return Val{T: "iface.nil", Ty: types.NewInterfaceType(nil, nil)}
 	case "chanclosed": // ghost: has close(ch) been executed
 		return Val{T: app("select", fc.heapGet(env.st(), "$chanclosed", "(Array Int Bool)"), arg(0).T), Ty: tBool}
 	case "sleepers", "woken": // ghost counters of a sync.Cond (number parked / signalled and not yet resumed)
